@@ -4,9 +4,6 @@ import os, subprocess, sys, glob
 V = os.path.dirname(os.path.dirname(os.path.abspath(__file__)))
 sys.path.insert(0, os.path.join(V, "harness"))
 rc = 0
-pre = os.path.join(V, "harness", "pregen.py")
-if os.path.exists(pre):
-    rc |= subprocess.call(["/venv/bin/python", pre])
 order = []
 if os.path.isdir(os.path.join(V, "coq", "Core")):
     order.append("Core")
@@ -17,6 +14,13 @@ for d in sorted(glob.glob(os.path.join(V, "coq", "*", "_CoqProject"))):
 for e in order:
     d = os.path.join(V, "coq", e)
     print("== building coq/%s" % e, flush=True)
+    gen = os.path.join(d, "gen.py")
+    if os.path.exists(gen):  # translators: regenerate Gen_*.v from /repo's current source
+        env = dict(os.environ, PYTHONPATH="/repo/src", PYTHONHASHSEED="0")
+        subprocess.call(["/venv/bin/python", gen], cwd=d, env=env)
+    ext = os.path.join(d, "extract.sh")
     r = subprocess.call("coq_makefile -f _CoqProject -o Makefile.coq >/dev/null && timeout 3000 make -k -f Makefile.coq -j16 2>&1 | tail -5", shell=True, cwd=d)
     rc |= r
+    if os.path.exists(ext):  # OCaml extraction + driver build
+        subprocess.call(["bash", ext], cwd=d)
 sys.exit(0)
